@@ -29,8 +29,9 @@ def run(rep, prog, tier):
     at = ssm.as_atom() if isinstance(ssm, Poly) else None
     ok_net = ok_c = ok_l = None
     if at and at[0] == 'call' and at[1] == ('fn', 'nodal_state_space_model'):
-        args, kw = at[2], dict(at[3])
-        net = args[0] if args else kw.get('network')
+        from ..api import bound_args
+        kw = bound_args(prog, at)
+        net = kw.get('network')
         want_net = tkey(spec(ev, "transform_circuit(self.circuit, 0, 1e-3)", {'self': A('self'), 'transform_circuit': ev.ref_of(prog.resolve(prog.mod('Circuit.circuit'), 'transform_circuit'))}, m))
         ok_net = net == want_net
         for nm, kind, key in (('c_values', 'capacitor', 'C'), ('l_values', 'inductance', 'L')):
@@ -72,6 +73,7 @@ def run(rep, prog, tier):
         args = list(sc[2]); kws = dict(sc[3])
         names = ['ssm', 'y', 't', 'x0']
         amap = {names[i]: a for i, a in enumerate(args) if i < 4}
+        amap.update(kws)
         # model record
         model = amap.get('ssm')
         fields = dict(model[2]) if isinstance(model, tuple) and len(model) == 3 and model[0] == 'rec' else {}
